@@ -133,6 +133,32 @@ Theorem C06_model_meets_spec : forall nm ws inst sdefs acp_arg ctor cg clif cli 
 Proof. exact model_meets_spec. Qed.
 Print Assumptions C06_model_meets_spec.
 
+(* from the `_type_` fix on (CTOR_STRIP_GEN covers DISCARD_GEN): the serialisation's type tag is ignored.  The dataclass
+   constructor never receives a keyword that is not a field - the parse is the pipeline without that failure - and
+   set_default treats a section carrying the tag like the section without it, at whatever depth *)
+Theorem C06_type_key_ignored : forall nm ws inst sdefs acp_arg ctor cg clif cli,
+  run_gen nm ws inst sdefs acp_arg ctor cg clif cli =
+  match fold_res set_defaults_kwargs_gen (mk_pstate (ws_init ws inst) (PMap [])) sdefs with
+  | Err e => Err e
+  | Ok st1 =>
+    match fold_res (set_defaults_file_gen nm) st1 ctor with
+    | Err e => Err e
+    | Ok st2 =>
+      match fold_res (set_defaults_file_gen nm) st2 (applied_clif (acp_of acp_arg ctor) cg ctor clif) with
+      | Err e => Err e
+      | Ok st3 => match finish_all_gen (ps_ws st3) cli with Err e => Err e | Ok kvs => Ok (PMap kvs) end
+      end
+    end
+  end.
+Proof. exact type_key_ignored. Qed.
+Print Assumptions C06_type_key_ignored.
+
+Theorem C06_type_key_in_section_ignored : forall fs m v,
+  str_in "_type_" (keys fs) = false ->
+  set_default_tree_gen (WClass fs) (PMap (("_type_", v) :: m)) = set_default_tree_gen (WClass fs) (PMap m).
+Proof. exact type_key_in_section_ignored. Qed.
+Print Assumptions C06_type_key_in_section_ignored.
+
 (* non-vacuity: parse(Root, default=Root(..), config_path=[f1, f2], args="--config_path g1 --d 9") on
      class In: c: str = "c1"; d: int = 4; e: Optional[int] = None
      class Root: a: int = 1; b: int (required); n: In
@@ -164,5 +190,8 @@ Example C06_nonvacuous :
   /\ forest_names_nonfield ex_ws (rooted_gen PARSE_NESTED_MODE_GEN ex_ws (PMap [("n", PMap [("zz", PVal (VInt 1))])])) = true
   /\ run_gen PARSE_NESTED_MODE_GEN ex_ws ex_inst [] (Some true) (ex_ctor ++ [PMap [("n", PMap [("zz", PVal (VInt 1))])]]) true ex_clif ex_cli
      = Err (Raise "RuntimeError")
+  /\ run_gen PARSE_NESTED_MODE_GEN ex_ws ex_inst [] (Some true)
+             (ex_ctor ++ [PMap [("_type_", PVal (VStr "m.Root")); ("n", PMap [("_type_", PVal (VStr "m.In"))])]]) true ex_clif ex_cli
+     = run_gen PARSE_NESTED_MODE_GEN ex_ws ex_inst [] (Some true) ex_ctor true ex_clif ex_cli
   /\ compatible (PMap [("a", PVal (VInt 1)); ("n", PMap [("c", PNull)])]) (PMap [("n", PMap [("c", PVal (VInt 2)); ("d", PVal (VInt 3))])]) = true.
 Proof. vm_compute. repeat split; reflexivity. Qed.
